@@ -425,7 +425,7 @@ pub fn worker(w: &mut WorkerCtx) {
             if ops_rel[oi].is_mutator() && matches!(ops_rel[oi], Op::Chmod(..) | Op::ChmodB(..) | Op::Chown(..) | Op::ChownB(..) | Op::MkdirM(..) | Op::MkfileM(..) | Op::CopyB(..)) {
                 disk_dirty = true; // modes / owners are not part of Tree equality used above
             }
-            if w.shard == 0 && ti % 97 == 5 && oi % 131 == 7 {
+            if oi % 131 == 7 && ops_rel[oi].is_mutator() {
                 w.sample(J::obj([("tree", J::s(tree.render())), ("call", J::s(ops_rel[oi].render())), ("stdfs", J::s(unroot(&od.brief(), &sbr))), ("memfs", J::s(unroot(&om.brief(), &sbr)))]));
             }
         }
